@@ -84,31 +84,28 @@ def specBlockMode (C : Cipher) (mode : String) : Option AnyBlockMode :=
   | "ofb-dec" => some ⟨_, mkSpec C.bs id (Spec.ofb C) id none "OfbCore<Toy> { ... }"⟩
   | _ => none
 
-/-- instance pool shared by every family: `clone` pushes a copy of the current instance, `use i` switches. -/
-structure Pool (σ : Type) where
-  insts : Array σ
-  cur   : Nat
-
-def Pool.get {σ : Type} (p : Pool σ) (d : σ) : σ := p.insts.getD p.cur d
-def Pool.set {σ : Type} (p : Pool σ) (s : σ) : Pool σ := { p with insts := p.insts.setIfInBounds p.cur s }
+/-- instance pool shared by every family: `clone` pushes a copy of the current instance, `use i` switches,
+    `clonefrom i` overwrites the current instance.  The pool and its three operations are the library's
+    `Impl.Pool` (Thm/C16 `pool_lineage` is about exactly these functions). -/
+abbrev Pool := Impl.Pool
 
 /-- generic pool ops; returns `none` if the op is not a pool op. -/
 def poolStep {σ : Type} (p : Pool σ) (d : σ) (toks : List String) : Option (Pool σ × String) :=
   match toks with
-  | ["clone"] => some ({ insts := p.insts.push (p.get d), cur := p.cur }, "ok")
+  | ["clone"] => some (p.clone d, "ok")
   | ["use", i] =>
     match i.toNat? with
-    | some k => if k < p.insts.size then some ({ p with cur := k }, "ok") else some (p, bad)
+    | some k => if k < p.insts.length then some (p.use k, "ok") else some (p, bad)
     | none => some (p, bad)
   | ["clonefrom", i] =>
     -- `current.clone_from(&pool[i])`: the current instance is overwritten with a copy of instance `i`
     match i.toNat? with
-    | some k => if k < p.insts.size then some (p.set (p.insts.getD k d), "ok") else some (p, bad)
+    | some k => if k < p.insts.length then some (p.cloneFrom d k, "ok") else some (p, bad)
     | none => some (p, bad)
   | _ => none
 
 def blockMachine {σ : Type} (M : BlockMode σ) (iv : Bytes) (ivLen keyLen : Nat) : Machine (Pool σ) where
-  init := { insts := #[M.init iv], cur := 0 }
+  init := { insts := [M.init iv], cur := 0 }
   step := fun p toks =>
     let d := M.init iv
     match poolStep p d toks with
@@ -171,7 +168,7 @@ def blockMachine {σ : Type} (M : BlockMode σ) (iv : Bytes) (ivLen keyLen : Nat
         | _, _, _ => (p, bad)
       | ["ivstate"] => (p, "state " ++ toHex (M.ivState s))
       | ["reinit"] => (p.set (M.init (M.ivState s)), "ok")
-      | ["viainner"] => ({ insts := p.insts.push (M.init iv), cur := p.cur }, "ok")
+      | ["viainner"] => ({ insts := p.insts ++ [M.init iv], cur := p.cur }, "ok")
       | ["newslice", kl, il] =>
         match kl.toNat?, il.toNat? with
         | some k, some i => (p, if k = keyLen ∧ i = ivLen then "ok" else "err")
@@ -206,7 +203,7 @@ def RS.run (step : RS → UInt8 → UInt8 × RS) : RS → Bytes → Bytes × RS
     (r.1 :: r2.1, r2.2)
 
 def bufImplMachine (C : Cipher) (enc : Bool) (iv : Bytes) : Machine (Pool CfbBuf.St) where
-  init := { insts := #[CfbBuf.init C iv], cur := 0 }
+  init := { insts := [CfbBuf.init C iv], cur := 0 }
   step := fun p toks =>
     let d := CfbBuf.init C iv
     match poolStep p d toks with
@@ -226,7 +223,7 @@ def bufImplMachine (C : Cipher) (enc : Bool) (iv : Bytes) : Machine (Pool CfbBuf
       | _ => (p, bad)
 
 def bufSpecMachine (C : Cipher) (enc : Bool) (iv : Bytes) : Machine (Pool RS) where
-  init := { insts := #[{ ch := iv, cur := [] }], cur := 0 }
+  init := { insts := [{ ch := iv, cur := [] }], cur := 0 }
   step := fun p toks =>
     let d : RS := { ch := iv, cur := [] }
     match poolStep p d toks with
